@@ -146,3 +146,9 @@ func VerifC15_PatternMatchers() {
 		sym.Reach("unmatched")
 	}
 }
+
+// VerifNullMatch is what the YAML loader produces for a condition written without a value (`app:`, `~`, `null`):
+// yaml.v3 does not call the custom unmarshaller for a null node, so the map entry is the zero matcher.
+func VerifNullMatch(key string) LogMatcherConfig {
+	return LogMatcherConfig{key: valueMatch{}}
+}
